@@ -505,6 +505,8 @@ def _warned(E, *cats):
     import os
     if os.environ.get("G8_DEBUG"):
         print("WARN TRACE", wtrace(E.s1), cats)
+    if E.role != "goal":
+        return z3.BoolVal(True)       # at a call site the ghost trace is not handed over: the warnings are a clause of the PROVED cases only
     return z3.BoolVal(tuple(wtrace(E.s1)) == tuple(cats))
 
 
@@ -647,3 +649,174 @@ REG.add(Contract(MG, "GPR.from_symbolic", "C08", [("cls", _clsT), ("sympy_gpr", 
                   _fsym_type_error],
                  pre=_fsym_pre, modifies=FS_MOD, axioms=lambda E: _axioms(E) + V.sympy_axioms() + V.sympy_accessor_axioms(),
                  key="GPR.from_symbolic", result=lambda eng, st, E: (st, VRef(fresh("gpr_from_symbolic", Ref), "GPR"))))
+
+
+# ================================================================ GPR.to_string (pass-through of the string-level _ast2str)
+rule_text = z3.Function("gpr_ast2str", RefInt, RefId, RefRef, RefInt, RefSeq, RefRef, Ref, Id)     # _ast2str(expr, level 0, no display names)
+
+
+def h6(E, st):
+    return tuple(H(E, st, f) for f in ("ast_tag", "id", "op", "values_n", "values_seq", "body"))
+
+
+_lv = TInt()
+_lv.default = VInt(0)
+_nm = TNone()
+_nm.default = NONE
+REG.add(Contract(MG, "GPR._ast2str", "C08", [("self", TRef("GPR")), ("expr", TRef("AstNode")), ("level", _lv), ("names", _nm)],
+                 [Case("level0_no_display_names", requires=lambda E: E["level"].t == 0)], assumed=True, key="GPR._ast2str",
+                 result=lambda eng, st, E: (st, VStr(rule_text(*h6(Env(E.a, st, eng=eng), st), E["expr"].t))),
+                 note="STRING level (str.join over the recursively printed operands, f-string parentheses): the text of the tree `expr` at "
+                      "level 0 without display names is the uninterpreted function gpr_ast2str of the tree heap"))
+REG.add(Contract(MG, "GPR.to_string", "C08", [("self", TRef("GPR")), ("names", _nm)],
+                 [Case("no_display_names", ensures=lambda E: E.res.t == rule_text(*h6(E, E.s0), E["self"].t))], key="GPR.to_string",
+                 result=lambda eng, st, E: (st, VStr(rule_text(*h6(Env(E.a, st, eng=eng), st), E["self"].t)))))
+
+
+# ================================================================ Reaction.gene_reaction_rule (getter / setter), Reaction.gpr (setter)
+# The setters are verified as the bodies under `@resettable` (the wrapper is the C03 kernel contract `resettable.wrapper`).  The call
+# `self.update_genes_from_gpr()` is RECORDED (ghost trace `ug_calls`, with the state it is made in); its effect is the proved C02
+# contract `Reaction.update_genes_from_gpr` (contracts/c02_update_genes.py), not re-applied here.
+RX_T = TObj("Reaction", {"_gpr": TRef("GPR")})
+
+
+def rx_call_method_hook(eng, st, recv, name, pos, kw):
+    if isinstance(recv, VObj) and recv.cls == "Reaction" and name == "update_genes_from_gpr" and not pos and not kw:
+        return [("ok", st.setghost("ug_calls", st.ghost.get("ug_calls", ()) + ((recv.oid, st),)), NONE)]
+    return None
+
+
+def rx_getattr_hook(eng, st, v, name):
+    if isinstance(v, VClass) and v.name == "GPR" and name in ("from_string", "from_symbolic"):
+        return [("ok", st, VFunc("partial", VFunc("unbound", "GPR", name), (VClass("GPR"),), {}))]      # classmethod: cls bound
+    return None
+
+
+HOOKS_RX = chain_hooks({"call_method": rx_call_method_hook, "getattr": rx_getattr_hook}, HOOKS_FS)
+HOOKS_RX["call_abstract"] = HOOKS_FS["call_abstract"]
+
+
+def _gpr_now(E, st):
+    return st.objs[E["self"].oid]["attr:_gpr"]
+
+
+def _one_update_call(E):
+    """exactly one update_genes_from_gpr() call, on this reaction, made when self._gpr already is the rule it has at exit"""
+    calls = E.s1.ghost.get("ug_calls", ())
+    if len(calls) != 1 or calls[0][0] != E["self"].oid:
+        return z3.BoolVal(False)
+    then, now = calls[0][1].objs[E["self"].oid]["attr:_gpr"], _gpr_now(E, E.s1)
+    if not (isinstance(then, VRef) and isinstance(now, VRef)):
+        return z3.BoolVal(False)
+    same_heap = all(calls[0][1].heap.get(f) is E.s1.heap.get(f) or calls[0][1].heap.get(f).eq(E.s1.heap.get(f))
+                    for f in ("body", "gpr_genes", "values_n", "values_seq", "ast_tag", "id", "op") if f in E.s1.heap)
+    return z3.And(then.t == now.t, z3.BoolVal(same_heap))
+
+
+def _no_update_call(E):
+    return z3.BoolVal(E.s1.ghost.get("ug_calls", ()) == ())
+
+
+def _as_fs(E):
+    """the environment of the from_string contract for the call `GPR.from_string(new_rule)`; its result is the new self._gpr"""
+    res = _gpr_now(E, E.s1) if E.s1 is not None else None
+    return Env({"cls": VClass("GPR"), "string_gpr": E["new_rule"]}, E.s0, E.s1, res=res, eng=E.eng, role="assume")
+
+
+def _rx_mk_gpr(st):
+    return st, VRef(fresh("gpr_after", Ref), "GPR")
+
+
+RX_MOD = lambda E: FS_MOD(E) + [("attr", E["self"], "_gpr", _rx_mk_gpr), ("ghost", "ug_calls", lambda st: ())]  # noqa
+
+
+def _grr_cases():
+    out = []
+    for c in REG.get("GPR.from_string").cases:
+        if c.name == "not_a_string":
+            n = Case("not_a_string", raises="TypeError", ensures=_no_update_call)
+            n.params_override = {"new_rule": TInt()}
+            n.applies = lambda a, st: not isinstance(a["new_rule"], (VStr, VConc))
+            n.modifies_on_raise = lambda E: []
+        else:
+            n = Case(c.name, requires=(lambda E, c=c: c.requires(_as_fs(E))),
+                     ensures=(lambda E, c=c: z3.And(c.ensures(_as_fs(E)), _one_update_call(E))))
+            n.applies = lambda a, st: isinstance(a["new_rule"], (VStr, VConc))
+        out.append(n)
+    return out
+
+
+REG.add(Contract(MR, "Reaction.gene_reaction_rule@setter", "C08", [("self", RX_T), ("new_rule", TStr())], _grr_cases(),
+                 pre=lambda E: _fs_pre(_as_fs(E)), modifies=RX_MOD, axioms=_fs_axioms, key="Reaction.gene_reaction_rule@setter/text"))
+REG.add(Contract(MR, "Reaction.gpr@setter", "C08", [("self", RX_T), ("value", TRef("GPR"))],
+                 [Case("any", ensures=lambda E: z3.And(_gpr_now(E, E.s1).t == E["value"].t, _one_update_call(E)))],
+                 modifies=lambda E: [("attr", E["self"], "_gpr", _rx_mk_gpr), ("ghost", "ug_calls", lambda st: ())],
+                 key="Reaction.gpr@setter/text"))
+REG.add(Contract(MR, "Reaction.gene_reaction_rule@getter", "C08", [("self", RX_T)],
+                 [Case("any", ensures=lambda E: E.res.t == rule_text(*h6(E, E.s0), _gpr_now(E, E.s0).t))],
+                 key="Reaction.gene_reaction_rule@getter/text", result="id"))
+
+
+# ================================================================ lemmas
+text_sem = z3.Function("gpr_text_sem", Id, IdSet, z3.BoolSort())     # the Boolean and/or value of the ORIGINAL rule text, genes in K absent
+text_names = z3.Function("gpr_text_names", Id, IdSet)                # the gene identifiers occurring in the original text
+text_ok = z3.Function("gpr_text_in_grammar", Id, z3.BoolSort())      # non-blank text of the grammar of the statement
+
+
+def escaping_is_faithful(s, K):
+    """T2 - the STRING-LEVEL assumption about the escaping pipeline (tested exhaustively on small texts by the bounded driver, not
+    proved): for a text s of the grammar, either the escaped text text0(s) is accepted by CPython and is a rule over escaped
+    identifiers with the value and the identifiers of s, or it is rejected, contains AND / OR, and the same holds for text1(s)"""
+    k = z3.Const("t2k", Id)
+
+    def same(e):
+        return z3.And(py_parses(e), esc_rule(e), esc_sem(e, K) == text_sem(s, K), z3.ForAll([k], esc_names(e)[k] == text_names(s)[k]))
+    return z3.Implies(text_ok(s), z3.And(str_strip(s) != id_lit(""),
+                                         z3.Or(same(text0(s)), z3.And(z3.Not(py_parses(text0(s))), has_upper(s), same(text1(s))))))
+
+
+def lemmas():
+    from pyvc.engine import Obl
+    out = []
+    # ---- (1) an expression tree ignores the `body` field: induction steps of the three axioms of more_tree_axioms
+    tg, nid, op = z3.Const("e_tag", RefInt), z3.Const("e_id", RefId), z3.Const("e_op", RefRef)
+    VN, VS, BD, BD2 = z3.Const("e_VN", RefInt), z3.Const("e_VS", RefSeq), z3.Const("e_BD", RefRef), z3.Const("e_BD2", RefRef)
+    t, K, i, k = z3.Const("e_t", Ref), z3.Const("e_K", IdSet), z3.Int("e_i"), z3.Const("e_k", Id)
+    h, g = (VN, VS, BD), (VN, VS, BD2)
+
+    def claim(x):
+        return z3.And(wfh(*g, x), semh(*g, x, K) == semh(*h, x, K), z3.ForAll([k], names(*g, x)[k] == names(*h, x)[k],
+                                                                              patterns=[names(*g, x)[k], names(*h, x)[k]]))
+    kid = VS[t][i]
+    hyp = V.tree_axioms_arr(tg, nid, op, at=t) + V.names_axioms_arr(tg, nid, at=t) + [
+        t != NULL, is_expr_tag(tg, t), wfh(*h, t),
+        # induction hypothesis: the claim for every child (children of a well-formed BoolOp are well-formed expression nodes)
+        z3.ForAll([i], z3.Implies(z3.And(0 <= i, i < VN[t]), claim(kid)), patterns=[kid])]
+    kinds = [("Name", tg[t] == T_NAME), ("Or", z3.And(tg[t] == T_BOOLOP, tg[op[t]] == T_OR)), ("And", z3.And(tg[t] == T_BOOLOP, tg[op[t]] == T_AND))]
+    for nm, c in kinds:
+        out.append(Obl(f"C08/lemma/expr-tree-ignores-body/induction-step/{nm}/wf", hyp + [c], wfh(*g, t), "lemma"))
+        out.append(Obl(f"C08/lemma/expr-tree-ignores-body/induction-step/{nm}/value", hyp + [c], semh(*g, t, K) == semh(*h, t, K), "lemma"))
+        out.append(Obl(f"C08/lemma/expr-tree-ignores-body/induction-step/{nm}/names", hyp + [c], names(*g, t)[k] == names(*h, t)[k], "lemma"))
+    out.append(Obl("C08/lemma/expr-tree-ignores-body/induction-step/kinds-cover", hyp, z3.Or(*[c for _, c in kinds]), "lemma"))
+    # ---- (2) from the proved cases of GPR.from_string and the string-level assumption T2: a text of the grammar gives a rule with
+    # the value and the genes of the ORIGINAL text
+    s, gg = z3.Const("f_s", Id), z3.Const("f_g", Ref)
+    P0, P1, ne = py_parses(text0(s)), py_parses(text1(s)), str_strip(s) != id_lit("")
+
+    def rule_of(e):
+        return z3.And(BD[gg] != NULL, semh(*h, gg, K) == esc_sem(e, K), z3.ForAll([k], names(*h, gg)[k] == esc_names(e)[k]))
+    hyp2 = [escaping_is_faithful(s, K), text_ok(s),
+            z3.Implies(z3.And(ne, P0), rule_of(text0(s))),                                   # case accepted
+            z3.Implies(z3.And(ne, z3.Not(P0), has_upper(s), P1), rule_of(text1(s)))]         # case accepted_after_lowering_AND_OR
+    out.append(Obl("C08/lemma/from_string/value-and-genes-of-the-original-text", hyp2,
+                   z3.And(BD[gg] != NULL, semh(*h, gg, K) == text_sem(s, K), names(*h, gg)[k] == text_names(s)[k]), "lemma"))
+    return out
+
+
+def all_lemmas():
+    return V.all_lemmas() + lemmas()
+
+
+KEYS_RX = ["GPR.__init__", "GPR.from_string", "GPR.to_string", "Reaction.gene_reaction_rule@setter/text", "Reaction.gpr@setter/text",
+           "Reaction.gene_reaction_rule@getter/text"]
+KEYS_FSYM = ["GPR.from_symbolic"]
